@@ -177,6 +177,20 @@ func RuleKWeightsSum(c *core.Ctx) {
 				}
 			}
 			visit(bo.Y)
+			// or: the divisor is computed by a helper sum(m, keys) = Σ m[k], k ∈ keys
+			if call2, ok := bo.Y.(*ssa.Call); ok && !okD {
+				if mi, ki, ok := sumHelperShape(p, call2.Call.StaticCallee()); ok && mi < len(call2.Call.Args) && ki < len(call2.Call.Args) {
+					fD, _ := containerRoot(call2.Call.Args[mi])
+					switch {
+					case fD != fN || fD != v1:
+						why = "the divisor sums a different map than the dividend comes from"
+					case rangedN == nil || !p.SameExpr(call2.Call.Args[ki], rangedN):
+						why = "the divisor sums over a different collection of commodities than the weights are computed for"
+					default:
+						okD = true
+					}
+				}
+			}
 			if okD {
 				c.Ob(rule, key, call.Pos(), core.FuncName(fn), core.Discharged, "dividend V1[com], divisor the sum of V1 over the same sorted commodities")
 			} else {
@@ -325,4 +339,68 @@ func accumulatedBetween(fn *ssa.Function, st *ssa.Store, call *ssa.Call, cell ss
 		}
 	}
 	return false
+}
+
+
+// sumHelperShape: fn(m map[K]float64, keys []K) float64 returns the sum of
+// m[k] over the elements k of keys — the indices of those two parameters.
+func sumHelperShape(p *core.Prog, fn *ssa.Function) (mapParam, keysParam int, ok bool) {
+	if fn == nil || fn.Blocks == nil || !p.InModule(fn) {
+		return 0, 0, false
+	}
+	idx := func(v ssa.Value) int {
+		for i, q := range fn.Params {
+			if ssa.Value(q) == v {
+				return i
+			}
+		}
+		return -1
+	}
+	mapParam, keysParam = -1, -1
+	good := true
+	nret := 0
+	core.EachInstr(fn, func(ins ssa.Instruction) {
+		ret, isRet := ins.(*ssa.Return)
+		if !isRet || len(ret.Results) != 1 {
+			return
+		}
+		nret++
+		seen := map[ssa.Value]bool{}
+		var visit func(v ssa.Value)
+		visit = func(v ssa.Value) {
+			if seen[v] {
+				return
+			}
+			seen[v] = true
+			switch x := v.(type) {
+			case *ssa.Const:
+			case *ssa.Phi:
+				for _, e := range x.Edges {
+					visit(e)
+				}
+			case *ssa.BinOp:
+				if x.Op != token.ADD {
+					good = false
+					return
+				}
+				visit(x.X)
+				lk, ok := x.Y.(*ssa.Lookup)
+				if !ok {
+					good = false
+					return
+				}
+				mi := idx(lk.X)
+				ks := rangedSliceOfKey(lk.Index)
+				if mi < 0 || ks == nil || idx(ks) < 0 {
+					good = false
+					return
+				}
+				mapParam, keysParam = mi, idx(ks)
+			default:
+				good = false
+			}
+		}
+		visit(ret.Results[0])
+	})
+	return mapParam, keysParam, good && nret == 1 && mapParam >= 0 && keysParam >= 0
 }
